@@ -66,12 +66,15 @@ theorem dispatch_noLoc (mk : List Bytes → Option Matcher) {P : PPorts} (hwf : 
     dispatch mk P.render (addr ++ 0 :: msgTail k tags rst) d base =
       some (finNo P.dflt [] d.obj (rootAddr base addr ++ 0 :: msgTail k tags rst)
         (semNo P.tab [] 0 d.obj (rootAddr base addr) tags (msgTail k tags rst) (rootDataNo base d) false)) := by
-  have hsc := scanNoLoc_sem k tags rst n P.tab hwf hfit [] 0 d.obj (rootAddr base addr)
-    (rootDataNo base d) false (hm.root base)
+  obtain ⟨loc, locSize, locHigh, obj, nmatches, port⟩ := d
+  simp only at hd
+  subst hd
+  have hsc := scanNoLoc_sem k tags rst n P.tab hwf hfit [] 0 obj (rootAddr base addr)
+    (rootDataNo base ⟨none, locSize, locHigh, obj, nmatches, port⟩) false (hm.root base)
   unfold dispatch
   cases base with
   | false =>
-    simp only [Bool.false_eq_true, ↓reduceIte, hd, Option.isNone_none, Bool.true_or, PPorts.render]
+    simp only [Bool.false_eq_true, ↓reduceIte, Option.isNone_none, Bool.true_or, PPorts.render]
     simp only [rootAddr, rootDataNo, Bool.false_eq_true, ↓reduceIte] at hsc ⊢
     rw [hsc, finishNoLoc_some]
   | true =>
@@ -83,8 +86,8 @@ theorem dispatch_noLoc (mk : List Bytes → Option Matcher) {P : PPorts} (hwf : 
     | cons c r =>
       rw [hmm] at hmsg
       simp only [Option.some.injEq] at hmsg
-      simp only [hd, hmsg, Option.isNone_none, Bool.true_or, ↓reduceIte]
-      simp only [rootDataNo, ↓reduceIte] at hsc
+      simp only [hmsg, Option.isNone_none, Bool.true_or, ↓reduceIte]
+      simp only [rootDataNo, ↓reduceIte] at hsc ⊢
       rw [hsc, finishNoLoc_some]
 
 /-! ### with location buffer -/
@@ -129,8 +132,9 @@ theorem enterLoc_empty (mk : List Bytes → Option Matcher) (names : List Bytes)
     (h : d.locStr.isEmpty = true) :
     enterLoc mk names dflt tp m d lin hsh =
       enterLoc mk names dflt tp m { d with loc := some [47], locHigh := max d.locHigh d.locSize } lin hsh := by
+  have h' : d.loc.getD [] = [] := by simpa [RtData.locStr] using h
   unfold enterLoc
-  simp [h, RtData.locStr]
+  simp [h', RtData.locStr]
 
 theorem dispatch_loc {mk : List Bytes → Option Matcher} (hmk : MkOK mk) {P : PPorts} (hwf : P.tab.WF) {n : Nat}
     (hfit : P.tab.argsFit n = true) {addr tags rst : Bytes} (k : Nat) (hm : MsgOK addr tags rst n)
@@ -154,10 +158,10 @@ theorem dispatch_loc {mk : List Bytes → Option Matcher} (hmk : MkOK mk) {P : P
     · rw [enterLoc_empty _ _ _ _ _ _ _ _ he]
       have : rootDataLoc false d = { d with loc := some [47], locHigh := max d.locHigh d.locSize } := by
         simp [rootDataLoc, he]
-      rw [this] at hE
+      rw [this] at hE ⊢
       exact hE
     · have : rootDataLoc false d = d := by simp [rootDataLoc, he]
-      rw [this] at hE
+      rw [this] at hE ⊢
       exact hE
   | true =>
     have hmsg := root_msg true addr (msgTail k tags rst) hm.a_nul
@@ -174,7 +178,7 @@ theorem dispatch_loc {mk : List Bytes → Option Matcher} (hmk : MkOK mk) {P : P
           { ({ d with nmatches := 0, loc := some [], locHigh := max d.locHigh 1 } : RtData) with
             loc := some [47], locHigh := max (max d.locHigh 1) d.locSize } := by
         simp [rootDataLoc, RtData.locStr]
-      rw [this] at hE
+      rw [this] at hE ⊢
       exact hE
 
 end Rtosc.Ports
